@@ -3,7 +3,7 @@ package main
 import (
 	"fmt"
 	"go/ast"
-	"go/build/constraint"
+	"go/build"
 	"go/parser"
 	"go/token"
 	"os"
@@ -15,29 +15,75 @@ import (
 // The packages that are translated (all Go packages of the repo).
 var repoPkgs = []string{"ff", "ffg", "constants", "utils", "keccak256", "poseidon", "goldenposeidon", "mimc7", "babyjub"}
 
-// defaultBuild evaluates a //go:build expression under the default tag set.
-func defaultBuild(f *ast.File) bool {
-	for _, cg := range f.Comments {
-		if cg.Pos() >= f.Package {
-			break
-		}
-		for _, c := range cg.List {
-			if !constraint.IsGoBuild(c.Text) {
-				continue
-			}
-			x, err := constraint.Parse(c.Text)
-			if err != nil {
-				return false
-			}
-			return x.Eval(func(tag string) bool {
-				return tag == "linux" || tag == "amd64" || tag == "gc" || strings.HasPrefix(tag, "go1")
-			})
+// defaultMatch reports whether `go build` on linux/amd64 WITHOUT custom tags
+// compiles the file: //go:build and // +build lines AND the _GOOS / _GOARCH
+// file-name suffixes, exactly as go/build decides it.  The only input that
+// depends on the machine is cgo: a file whose selection depends on it is an error.
+func defaultMatch(dir, name string) (bool, error) {
+	ctx := build.Default
+	ctx.GOOS, ctx.GOARCH, ctx.Compiler = "linux", "amd64", "gc"
+	ctx.BuildTags, ctx.UseAllFiles = nil, false
+	ctx.CgoEnabled = true
+	a, err := ctx.MatchFile(dir, name)
+	if err != nil {
+		return false, err
+	}
+	ctx.CgoEnabled = false
+	b, err := ctx.MatchFile(dir, name)
+	if err != nil {
+		return false, err
+	}
+	if a != b {
+		return false, fmt.Errorf("%s/%s: whether the file is compiled depends on cgo (unsupported)", dir, name)
+	}
+	return a, nil
+}
+
+// readModule reads the module path from go.mod and checks that EVERY package
+// of the module is in the analysed list repoPkgs: the verdicts quantify over
+// "all exported functions", which would silently exclude an unlisted package.
+func readModule(repo string) error {
+	gm, err := os.ReadFile(filepath.Join(repo, "go.mod"))
+	if err != nil {
+		return err
+	}
+	for _, ln := range strings.Split(string(gm), "\n") {
+		if f := strings.Fields(ln); len(f) == 2 && f[0] == "module" {
+			modulePath = strings.Trim(f[1], "\"")
 		}
 	}
-	return true
+	if modulePath == "" {
+		return fmt.Errorf("no module line in %s/go.mod", repo)
+	}
+	listed := map[string]bool{}
+	for _, d := range repoPkgs {
+		listed[d] = true
+	}
+	return filepath.WalkDir(repo, func(path string, d os.DirEntry, err error) error {
+		if err != nil {
+			return err
+		}
+		if d.IsDir() {
+			if n := d.Name(); path != repo && (strings.HasPrefix(n, ".") || strings.HasPrefix(n, "_") || n == "testdata" || n == "vendor") {
+				return filepath.SkipDir
+			}
+			return nil
+		}
+		if !strings.HasSuffix(path, ".go") || strings.HasSuffix(path, "_test.go") {
+			return nil
+		}
+		rel, _ := filepath.Rel(repo, filepath.Dir(path))
+		if !listed[filepath.ToSlash(rel)] {
+			return fmt.Errorf("%s: Go package %q of the module is not in the analysed list (repoPkgs in load.go)", path, rel)
+		}
+		return nil
+	})
 }
 
 func loadProg(repo string) (*Prog, error) {
+	if err := readModule(repo); err != nil {
+		return nil, err
+	}
 	p := &Prog{Fset: token.NewFileSet(), Pkgs: map[string]*Pkg{}}
 	for _, dir := range repoPkgs {
 		pk := &Pkg{Dir: dir, Imports: map[string]string{}, Types: map[string]*ast.TypeSpec{},
@@ -59,7 +105,9 @@ func loadProg(repo string) (*Prog, error) {
 			if err != nil {
 				return nil, err
 			}
-			if !defaultBuild(f) {
+			if ok, err := defaultMatch(filepath.Join(repo, dir), filepath.Base(fn)); err != nil {
+				return nil, err
+			} else if !ok {
 				continue
 			}
 			pk.Files = append(pk.Files, f)
@@ -68,7 +116,9 @@ func loadProg(repo string) (*Prog, error) {
 			return nil, fmt.Errorf("no Go files in %s/%s", repo, dir)
 		}
 		for _, f := range pk.Files {
-			collect(pk, f)
+			if err := collect(pk, f, p.Fset); err != nil {
+				return nil, err
+			}
 		}
 		p.Pkgs[dir] = pk
 	}
@@ -91,12 +141,58 @@ func recvTypeName(fd *ast.FuncDecl) (string, bool) {
 	return "?", ptr
 }
 
-func collect(pk *Pkg, f *ast.File) {
+// Imports are resolved by their FULL path.  The key under which a package is
+// looked up in the tables (repo packages, trusted library signatures) is
+//   - the directory name for the analysed packages <module>/<dir>,
+//   - the short name for exactly the library paths listed in trustedPaths,
+//   - for any other import the last path element, unless that name belongs to
+//     an analysed or trusted package: then "~<path>", which matches no table
+//     (every call into such a package is an unknown call).
+var trustedPaths = map[string]string{
+	"math/big": "big", "math/bits": "bits", "encoding/binary": "binary", "encoding/hex": "hex",
+	"fmt": "fmt", "errors": "errors", "strings": "strings", "strconv": "strconv", "reflect": "reflect",
+	"bytes": "bytes", "crypto/rand": "rand", "io": "io", "sync": "sync", "hash": "hash",
+	"crypto/sha256": "sha256", "golang.org/x/crypto/sha3": "sha3", "github.com/dchest/blake512": "blake512",
+}
+
+var modulePath string
+
+func importKeyOf(path string) string {
+	for _, dir := range repoPkgs {
+		if path == modulePath+"/"+dir {
+			return dir
+		}
+	}
+	if k, ok := trustedPaths[path]; ok {
+		return k
+	}
+	k := importKey(path)
+	claimed := false
+	for _, dir := range repoPkgs {
+		claimed = claimed || dir == k
+	}
+	for _, t := range trustedPaths {
+		claimed = claimed || t == k
+	}
+	if claimed {
+		return "~" + path
+	}
+	return k
+}
+
+func collect(pk *Pkg, f *ast.File, fset *token.FileSet) error {
+	dup := func(n ast.Node, what, name string) error {
+		return fmt.Errorf("%s: duplicate declaration of %s %s in package %s", fset.Position(n.Pos()), what, name, pk.Dir)
+	}
 	for _, im := range f.Imports {
-		key := importKey(im.Path.Value)
-		alias := key
+		path := strings.Trim(im.Path.Value, "\"`")
+		key := importKeyOf(path)
+		alias := importKey(path)
 		if im.Name != nil {
 			alias = im.Name.Name
+		}
+		if old, ok := pk.Imports[alias]; ok && old != key {
+			return fmt.Errorf("%s: the import name %s denotes two different packages in package %s (unsupported)", fset.Position(im.Pos()), alias, pk.Dir)
 		}
 		pk.Imports[alias] = key
 	}
@@ -111,11 +207,17 @@ func collect(pk *Pkg, f *ast.File) {
 			if rn, _ := recvTypeName(d); d.Recv != nil {
 				name = rn + "." + name
 			}
+			if _, ok := pk.Funcs[name]; ok && d.Name.Name != "_" {
+				return dup(d, "function", name)
+			}
 			pk.Funcs[name] = d
 		case *ast.GenDecl:
 			for _, sp := range d.Specs {
 				switch sp := sp.(type) {
 				case *ast.TypeSpec:
+					if _, ok := pk.Types[sp.Name.Name]; ok && sp.Name.Name != "_" {
+						return dup(sp, "type", sp.Name.Name)
+					}
 					pk.Types[sp.Name.Name] = sp
 				case *ast.ValueSpec:
 					if d.Tok == token.CONST {
@@ -130,10 +232,14 @@ func collect(pk *Pkg, f *ast.File) {
 						if sp.Type != nil {
 							gv.T = Type{E: sp.Type, Pkg: pk.Dir}
 						}
+						if _, ok := pk.Vars[n.Name]; ok && n.Name != "_" {
+							return dup(n, "variable", n.Name)
+						}
 						pk.Vars[n.Name] = gv
 					}
 				}
 			}
 		}
 	}
+	return nil
 }
